@@ -304,6 +304,22 @@ theorem post_ite {α} (c : Prop) [Decidable c] (a b : R α) (Q : α → Rd → P
 theorem post_any {α} (m : R α) (Q : α → Rd → Prop) (s : Rd) (h : ∀ a s', Q a s') : post m Q s :=
   fun a s' _ => h a s'
 
+/-- one step of symbolic execution under `post` (analogue of `wp_step`) -/
+syntax "post_step" : tactic
+macro_rules
+  | `(tactic| post_step) => `(tactic| first
+      | with_reducible apply post_bind
+      | with_reducible apply post_pure
+      | (with_reducible apply post_of_wp; with_reducible apply wp_bits_any; intro _ _ _)
+      | (with_reducible apply post_of_wp; with_reducible apply wp_enumId_any; intro _ _ _)
+      | (with_reducible apply post_of_wp; with_reducible apply wp_flag_any; intro _ _)
+      | (with_reducible apply post_of_wp; with_reducible apply wp_pad_any; intro _)
+      | (with_reducible apply post_of_wp; with_reducible apply wp_bitsLE_any; intro _ _)
+      | (with_reducible apply post_of_wp; with_reducible apply wp_seekLast_any; intro _)
+      | with_reducible exact True.intro)
+
+macro "post_run" : tactic => `(tactic| repeat post_step)
+
 /-- one step of symbolic execution of a reader under `wp`, forgetting positions: peels a bind,
     a primitive read (the value is introduced with its bound), `pure`, `fail`. Stops at `R.lift`
     and at conditionals, which the caller handles (`wp_lift_of`, `split`).
